@@ -53,6 +53,11 @@ var MutationKinds = []struct{ Kind, Rule string }{
 	{"overlapArgs", "OverlappingFieldsCanBeMerged"},
 	{"overlapShape", "OverlappingFieldsCanBeMerged"},
 	{"bareInlineUnderWrapped", "PossibleFragmentSpreads"},
+	{"nestedBadVariable", "VariablesInAllowedPosition"},
+	{"nestedGoodVariable", "VariablesInAllowedPosition"},
+	{"nestedWrongLiteral", "ArgumentsOfCorrectType"},
+	{"listAtNonListPosition", "ArgumentsOfCorrectType"},
+	{"multiFaultLiteral", "VariablesInAllowedPosition"},
 }
 
 // SelList is one selection list of the document with the type context of its members.
@@ -255,6 +260,9 @@ func (m *mut) chain(prefix string, on string, depth int, leaf *VSel) *VSel {
 func Mutate(r *hx.Rng, v *SchemaView, d *VDoc, kind string) bool {
 	m := &mut{r: r, v: v, d: d, lg: &vgen{r: r, v: v, size: 2, o: ValidDocOpts{NoVariables: true}, keys: map[string]*keyInfo{}, vars: map[string]string{},
 		varTyp: map[string]string{}, curVars: map[string]bool{}, curSpreads: map[string]bool{}, meta: &ValidMeta{Features: map[string]int{}}}}
+	if _, ok := nestedFaultKinds[kind]; ok {
+		return m.mutateNested(kind)
+	}
 	lists := d.SelLists()
 	fields := d.AllSels("field")
 	switch kind {
@@ -906,4 +914,224 @@ func permSels(r *hx.Rng, xs []*VSel) []*VSel {
 		out[i] = xs[j]
 	}
 	return out
+}
+
+// ---------------------------------------------------------------- faults at NESTED positions of one literal
+
+// nestedFaultKinds: mutations that build ONE argument literal with one or several faults at nested positions
+// (list elements of lists of every nullability shape, input-object fields, lists in input-object fields), the
+// faults on sibling positions in random order.
+var nestedFaultKinds = map[string][]string{
+	"nestedBadVariable":     {"badVar"},
+	"nestedGoodVariable":    {"goodVar"},
+	"nestedWrongLiteral":    {"wrong"},
+	"listAtNonListPosition": {"listAtNonList"},
+	"multiFaultLiteral":     nil, // 2-3 faults drawn from all of the above
+}
+
+type faultBuilder struct {
+	m       *mut
+	newVars []*VVar
+	placed  []string
+}
+
+func (fb *faultBuilder) apply(te *gq.TypeExpr, fault string) string {
+	m := fb.m
+	pos := te.String()
+	fb.placed = append(fb.placed, fault+"@"+pos)
+	switch fault {
+	case "wrong":
+		return m.wrongLiteral(pos)
+	case "listAtNonList":
+		t := te
+		for t.Kind == "nonNull" {
+			t = t.Of
+		}
+		if t.Kind == "list" {
+			// already a list position: a list one level too deep
+			return "[[" + m.lg.literal(t.Of.String(), 1, false) + "]]"
+		}
+		a, b := m.lg.literal(pos, 1, false), m.lg.literal(pos, 1, false)
+		if m.r.Chance(1, 2) {
+			return "[" + a + "]"
+		}
+		return "[" + a + ", " + b + "]"
+	case "goodVar":
+		n := fmt.Sprintf("g%d", len(fb.newVars))
+		fb.newVars = append(fb.newVars, &VVar{Name: n, Type: pos})
+		return "$" + n
+	case "badVar":
+		n := fmt.Sprintf("b%d", len(fb.newVars))
+		named := te.NamedName()
+		var typ string
+		switch m.r.Intn(3) {
+		case 0:
+			if strings.HasSuffix(pos, "!") {
+				typ = strings.TrimSuffix(pos, "!") // nullable variable at a non-null position
+				break
+			}
+			fallthrough
+		case 1:
+			other := "Int"
+			if named == "Int" {
+				other = "String"
+			}
+			typ = strings.Replace(pos, named, other, 1)
+		default:
+			typ = "[" + pos + "]"
+		}
+		fb.newVars = append(fb.newVars, &VVar{Name: n, Type: typ})
+		return "$" + n
+	}
+	return m.lg.literal(pos, 1, false)
+}
+
+// build: a literal for `te` carrying `faults`; at a list / input-object position the faults go to distinct
+// children (or all into one child), never onto the node itself while `nested` demands depth.
+func (fb *faultBuilder) build(te *gq.TypeExpr, faults []string, mustNest bool, depth int) string {
+	m, r := fb.m, fb.m.r
+	if len(faults) == 0 {
+		return m.lg.literal(te.String(), 1, false)
+	}
+	t := te
+	for t.Kind == "nonNull" {
+		t = t.Of
+	}
+	var td *gq.TypeDesc
+	if t.Kind == "named" {
+		td = m.v.Type(t.Name)
+	}
+	isObj := td != nil && td.Kind == "INPUT_OBJECT"
+	if depth <= 0 || (t.Kind != "list" && !isObj) || (!mustNest && len(faults) == 1 && r.Chance(1, 3)) {
+		return fb.apply(te, faults[0])
+	}
+	if t.Kind == "list" {
+		n := len(faults) + r.Intn(2)
+		if n < 2 {
+			n = 2
+		}
+		slots := make([][]string, n)
+		if len(faults) > 1 && r.Chance(1, 4) {
+			slots[r.Intn(n)] = faults // all into one element
+		} else {
+			for i, p := range perm(r, n)[:len(faults)] {
+				slots[p] = []string{faults[i]}
+			}
+		}
+		parts := []string{}
+		for i := 0; i < n; i++ {
+			parts = append(parts, fb.build(t.Of, slots[i], false, depth-1))
+		}
+		return "[" + strings.Join(parts, ", ") + "]"
+	}
+	// input object: every field is a candidate child, in random order
+	order := perm(r, len(td.InputFields))
+	slots := map[int][]string{}
+	if len(faults) > 1 && r.Chance(1, 4) || len(order) == 1 {
+		slots[order[0]] = faults
+	} else {
+		for i, f := range faults {
+			k := order[i%len(order)]
+			slots[k] = append(slots[k], f)
+		}
+	}
+	emit := perm(r, len(td.InputFields))
+	parts := []string{}
+	for _, k := range emit {
+		f := td.InputFields[k]
+		fe, _ := gq.ParseType(f.Type)
+		fs := slots[k]
+		if len(fs) == 0 {
+			if fe.Kind != "nonNull" && (r.Chance(1, 2) || fe.NamedName() == td.Name) {
+				continue
+			}
+			parts = append(parts, f.Name+": "+m.lg.literal(f.Type, 1, false))
+			continue
+		}
+		parts = append(parts, f.Name+": "+fb.build(fe, fs, false, depth-1))
+	}
+	return "{" + strings.Join(parts, ", ") + "}"
+}
+
+// mutateNested applies one of nestedFaultKinds.
+func (m *mut) mutateNested(kind string) bool {
+	r := m.r
+	faults := nestedFaultKinds[kind]
+	if faults == nil {
+		pool := []string{"badVar", "wrong", "listAtNonList", "goodVar", "badVar", "listAtNonList"}
+		k := r.Range(2, 3)
+		for i := 0; i < k; i++ {
+			faults = append(faults, r.Pick(pool))
+		}
+	}
+	structured := func(typ string) bool {
+		if strings.Contains(typ, "[") {
+			return true
+		}
+		td := m.v.Type(NamedOf(typ))
+		return td != nil && td.Kind == "INPUT_OBJECT"
+	}
+	type target struct {
+		s *VSel
+		a gq.ArgDesc
+	}
+	var ts []target
+	sels, defs := m.fieldsWithArgDefs()
+	for i, s := range sels {
+		for _, a := range defs[i] {
+			if structured(a.Type) {
+				ts = append(ts, target{s, a})
+			}
+		}
+	}
+	if len(ts) == 0 || r.Chance(1, 3) {
+		// select such a field at the root of an operation
+		for _, oi := range perm(r, len(m.d.Ops)) {
+			o := m.d.Ops[oi]
+			var c []gq.FieldDesc
+			for _, f := range m.v.Fields(o.Root) {
+				for _, a := range f.Args {
+					if structured(a.Type) {
+						c = append(c, f)
+						break
+					}
+				}
+			}
+			if len(c) == 0 {
+				continue
+			}
+			f := c[r.Intn(len(c))]
+			s := &VSel{Kind: "field", Alias: "zn", Name: f.Name, Parent: o.Root, Type: f.Type}
+			for _, a := range f.Args {
+				if strings.HasSuffix(a.Type, "!") {
+					s.Args = append(s.Args, &VArg{Name: a.Name, Value: m.lg.literal(a.Type, 1, false), Type: a.Type})
+				}
+			}
+			if m.v.IsComposite(NamedOf(f.Type)) {
+				s.HasSel, s.Sel = true, []*VSel{typenameSel(NamedOf(f.Type))}
+			}
+			o.Sel = append(o.Sel, s)
+			ts = nil
+			for _, a := range f.Args {
+				if structured(a.Type) {
+					ts = append(ts, target{s, a})
+				}
+			}
+			break
+		}
+	}
+	if len(ts) == 0 {
+		return false
+	}
+	t := ts[r.Intn(len(ts))]
+	te, _ := gq.ParseType(t.a.Type)
+	fb := &faultBuilder{m: m}
+	setArg(t.s, t.a.Name, fb.build(te, faults, true, 3), t.a.Type)
+	for _, o := range m.d.Ops {
+		for _, nv := range fb.newVars {
+			c := *nv
+			o.Vars = append(o.Vars, &c)
+		}
+	}
+	return true
 }
